@@ -96,6 +96,8 @@ class Component( ComponentLevel7 ):
           stack.append( obj )
     while stack:
       u = stack.pop()
+      if isinstance( u, NamedObject ) and u._dsl.parent_obj is not s:
+        continue # a second reference to an object that lives elsewhere
       if filt( u ):
         ret.add( u )
       # ONLY LIST IS SUPPORTED
